@@ -130,16 +130,15 @@ fn fixture() -> Fixture {
         let dir = scratch::Dir::new("c31base").keep();
         git::init_bare(&dir);
         util::write(&dir.join("HEAD"), b"ref: refs/heads/a\n");
-        let mut s = commit_stream("a", None, "f0", 1_000_000_000);
+        fast_import(&dir, &commit_stream("a", None, "f0", 1_000_000_000));
         let mut m = Model { a_depth: 1, b_exists: false, n: 0 };
         if base == 1 {
-            s.push_str(&format!("tag ann\nfrom refs/heads/a^0\ntagger {IDENT} 1000000050 +0000\n{}", data("tag base")));
-            s.push_str(&commit_stream("b", Some("refs/heads/a^0"), "b0", 1_000_000_100));
-            s.push_str(&commit_stream("a", Some("refs/heads/a^0"), "f00", 1_000_000_200));
-            s.push_str("reset refs/tags/lw\nfrom refs/heads/a^0\n\n");
+            fast_import(&dir, &format!("tag ann\nfrom refs/heads/a^0\ntagger {IDENT} 1000000050 +0000\n{}", data("tag base")));
+            fast_import(&dir, &commit_stream("b", Some("refs/heads/a^0"), "b0", 1_000_000_100));
+            fast_import(&dir, &commit_stream("a", Some("refs/heads/a^0"), "f00", 1_000_000_200));
+            fast_import(&dir, "reset refs/tags/lw\nfrom refs/heads/a^0\n\n");
             m = Model { a_depth: 2, b_exists: true, n: 0 };
         }
-        fast_import(&dir, &s);
         bases.push((dir, m));
     }
     let client = scratch::Dir::new("c31client").keep();
@@ -273,7 +272,37 @@ fn fetch_and_compare(cx: &mut Ctx<'_>, server: &Path, g: &Path, h: &Path, path: 
         diffs.push(format!("{name}: gitoxide {:?}, git {:?}", gv, wv));
     }
     if !diffs.is_empty() {
-        return Err(format!("refs: {} {}; update modes reported: {:?}", diffs.join("; "), here(), modes));
+        // One failure shape is classified separately so that it can be tracked as a known finding without hiding anything else:
+        // a genuine fast-forward (git merge-base --is-ancestor old new) whose new tip has an OLDER committer date than the old tip is
+        // rejected by gitoxide's date-cutoff ancestry walk when the refspec is not forced. Record it, repair G and keep exploring.
+        let mut skew = Vec::new();
+        for name in got.keys().chain(want.keys()).collect::<BTreeSet<_>>() {
+            let (gv, wv) = (got.get(name), want.get(name));
+            if gv == wv || tolerated.contains(name) {
+                continue;
+            }
+            let (Some(gv), Some(wv)) = (gv, wv) else { break };
+            let (old, new) = (gv.trim(), wv.trim());
+            let remote_name = name.replacen("refs/remotes/o/", "refs/heads/", 1);
+            let rejected = modes.iter().any(|(n, m)| *n == remote_name && m == "RejectedNonFastForward");
+            let is_ff = git::try_git(g, &["merge-base", "--is-ancestor", old, new]).ok;
+            let date = |id: &str| git::git_text(g, &["log", "-1", "--format=%ct", id]).parse::<u64>().unwrap_or(0);
+            if rejected && is_ff && date(new) < date(old) {
+                skew.push((name.clone(), old.to_string(), new.to_string()));
+            }
+        }
+        if skew.len() != diffs.len() {
+            return Err(format!("refs: {} {}; update modes reported: {:?}", diffs.join("; "), here(), modes));
+        }
+        cx.run.violation(
+            "history",
+            vkit::serde_json::json!({"base": c.base, "client": c.client, "proto": c.proto, "first": c.first, "depth": c.depth, "path": path}),
+            format!("ff-date-skew: fast-forward rejected as non-fast-forward because the new tip is older (committer date) than the old one: {skew:?} {}", here()),
+        );
+        cx.kinds.insert("ff-rejected-by-date-cutoff");
+        for (name, _, new) in &skew {
+            git::git(g, &["update-ref", name, new]);
+        }
     }
     if cx.client.shallow && shallow_of(g) != shallow_of(h) {
         return Err(format!("shallow: shallow file {:?} but git has {:?} {}", shallow_of(g), shallow_of(h), here()));
@@ -361,7 +390,7 @@ pub fn run(run: &'static Run) {
     run.rule(
         "server histories: from base 0 (a = 1 commit) or base 1 (a = 2 commits, b = side commit, annotated tag on the root, lightweight tag on the tip) every sequence of \
          {Commit on a, Branch (create/advance b with an old-dated commit), DelBranch b, Rewind a (forced replacement of the tip / new root), TagLw (move lightweight tag), TagAnn (re-create annotated tag)} \
-         up to the stated depth; after the initial state and after EVERY operation the client fetches. Clients: `+refs/heads/*:refs/remotes/o/*` with tag following; `refs/heads/*:refs/remotes/o/*` (no force) with --tags; \
+         up to depth 2 (quick: base 1, depth 1 for (follow-tags, v2), (unforced+all-tags, v1), (depth-1 shallow, v2) and the initial fetch only for (single-branch, v2); thorough: base 1 at depth 2 for all 4 clients x protocol 1 and 2, base 0 at depth 1 for all 4 clients with alternating protocol); after the initial state and after EVERY operation the client fetches. Clients: `+refs/heads/*:refs/remotes/o/*` with tag following; `refs/heads/*:refs/remotes/o/*` (no force) with --tags; \
          single branch `+refs/heads/a:..` with --no-tags; all heads --no-tags with depth 1; protocol.version 1 and 2. \
          a case = (base, client, protocol, first operation) and covers the whole subtree of continuations; non-trivial = every fetch in the subtree was compared with git fetch and at least one pack was received",
     );
@@ -373,7 +402,7 @@ pub fn run(run: &'static Run) {
     let fx = &fx;
     run.sub_with(
         "history",
-        vkit::Opts::default().chunk(16).watchdog(300.0),
+        vkit::Opts::default().chunk(8).watchdog(600.0),
         |emit| {
             let mut subtree = |base: u8, client: u8, proto: u8, depth: u8| {
                 emit(Case { base, client, proto, first: None, depth: 0 });
@@ -386,17 +415,17 @@ pub fn run(run: &'static Run) {
                 }
             };
             if run.quick() {
-                for (client, proto, depth) in [(0u8, 2u8, 2u8), (0, 1, 2), (1, 2, 2), (3, 2, 2), (2, 1, 1), (2, 2, 1)] {
+                for (client, proto, depth) in [(0u8, 2u8, 1u8), (1, 1, 1), (3, 2, 1), (2, 2, 0)] {
                     subtree(1, client, proto, depth);
                 }
             } else {
-                for base in [1u8, 0] {
-                    for client in 0..CLIENTS.len() as u8 {
-                        for proto in [2u8, 1] {
-                            let depth = if (base, client, proto) == (1, 0, 2) || (base, client, proto) == (0, 1, 1) { 3 } else { 2 };
-                            subtree(base, client, proto, depth);
-                        }
+                for client in 0..CLIENTS.len() as u8 {
+                    for proto in [2u8, 1] {
+                        subtree(1, client, proto, 2);
                     }
+                }
+                for client in 0..CLIENTS.len() as u8 {
+                    subtree(0, client, 2 - client % 2, 1);
                 }
             }
         },
@@ -427,6 +456,9 @@ pub fn run(run: &'static Run) {
     run.cov_add("fetches_compared_with_git_fetch", FETCHES.load(Ordering::Relaxed));
     run.cov_add("fetches_that_received_a_pack", PACKS.load(Ordering::Relaxed));
     run.cov_add("shallow_fetches", SHALLOW_FETCHES.load(Ordering::Relaxed));
+    if run.over_budget() {
+        return;
+    }
     run.require("some fetch received a pack", PACKS.load(Ordering::Relaxed) > 0);
     run.require("some implicit (followed) tag was created by gitoxide", IMPLICIT_TAG_CREATED.load(Ordering::Relaxed) > 0);
     run.require("some update was rejected (non-fast-forward / tag clobber)", REJECTED.load(Ordering::Relaxed) > 0);
